@@ -2,9 +2,18 @@
    Proved: each result-list decision is exactly its declarative statement: the list has no duplicates and contains x iff x is a
    vertex inside the closed shape / an edge having a point in common with it.  "Having a point in common" is proved equivalent to
    the existence of a rational point on the segment and in the rectangle (SegHitsRect) resp. squared distance <= r^2 (exact dyadic
-   comparison).  The flood fill itself is not modelled. *)
+   comparison).
+   The flood fill is modelled (Query/FloodFill.v: FloodFillIterator::new / next, the two shape iterators, both metrics; tied to the code by
+   the order-exact correspondence of Check/RunModel.v).  Proved about the model (Query/FloodFillProofs.v, FloodFillMetricProofs.v):
+   the code-shaped exact metrics ARE the declarative predicates; on a well-formed state whatever the model yields is a handle in range that
+   satisfies the specification (C16_model_sound); in degenerate states (all vertices on a line) the model terminates within its fuel and its
+   answer satisfies the whole specification (C16_model_line_rect, _circle, _vertices_rect, _vertices_circle); in two-dimensional states a terminating run has yielded every edge / corner
+   inside the shape of every triangle that can be reached from the start triangle by crossing inside edges (C16_model_complete_partial;
+   connectivity of the triangles meeting a convex shape is the hypothesis of C16_model_complete_connected).  Termination and absence of
+   duplicates in two-dimensional states are not proved (false for arbitrary metrics; decided per answer). *)
 From Coq Require Import ZArith List Bool Arith.
-From SpadeV Require Import Geom.Pred Obs.State Obs.Spec Obs.SpecProp Obs.Query Obs.QueryProp Obs.QueryProofs.
+From SpadeV Require Import Geom.Pred Num.Decode Obs.State Obs.Spec Obs.SpecProp Obs.Query Obs.QueryProp Obs.QueryProofs.
+From SpadeV Require Import Dcel.Raw Dcel.ProofsFlip Tri.Locate Query.FloodFill Query.FloodFillMetricProofs Query.FloodFillProofs.
 
 Theorem C16_vertices_in_rectangle : forall s pts lo hi got,
   vertices_in_rect_ok s pts lo hi got = true <-> VerticesInRectOk s pts lo hi got.
@@ -24,6 +33,91 @@ Proof. exact edge_meets_rect_point_spec. Qed.
 Theorem C16_segments_meet_means_common_point : forall a b c d, seg_meet a b c d = true <-> SegMeet a b c d.
 Proof. exact seg_meet_spec. Qed.
 
+(* ---- the executable model of the flood fill (Query/FloodFill.v) ---- *)
+Theorem C16_metric_rect_edge : forall lo hi a b, pnt_eqb a b = false -> rect_is_edge_inside lo hi a b = edge_meets_rect lo hi a b.
+Proof. exact rect_is_edge_inside_spec. Qed.
+Theorem C16_metric_rect_point : forall lo hi p, rect_is_point_inside lo hi p = in_rect lo hi p.
+Proof. exact rect_is_point_inside_spec. Qed.
+Theorem C16_metric_circle_edge : forall c r2 a b, pnt_eqb a b = false -> circle_is_edge_inside c r2 a b = edge_meets_circle c r2 a b.
+Proof. exact circle_is_edge_inside_spec. Qed.
+Theorem C16_metric_circle_point : forall c r2 p, circle_is_point_inside c r2 p = in_circle c r2 p.
+Proof. exact circle_is_point_inside_spec. Qed.
+
+(* whatever the model yields is in range and satisfies the declarative specification *)
+Theorem C16_model_sound : forall s pts, DW (dcel_of_obs s) ->
+  (forall e, e < nH s -> pnt_eqb (eorg s pts e) (edst s pts e) = false) ->
+  forall fuel lo hi loc l, get_edges_in_rectangle pts (dcel_of_obs s) fuel lo hi loc = Some l ->
+  forall k, In k l -> k < num_undirected_edges (dcel_of_obs s) /\ EdgeMeetsRect lo hi (eorg s pts (2 * k)) (edst s pts (2 * k)).
+Proof. exact model_edges_in_rectangle_sound. Qed.
+Theorem C16_model_sound_vertices_rect : forall s pts, DW (dcel_of_obs s) ->
+  forall fuel lo hi loc l, get_vertices_in_rectangle pts (dcel_of_obs s) fuel lo hi loc = Some l ->
+  forall v, In v l -> v < nV s /\ InRect lo hi (pos pts v).
+Proof. exact model_vertices_in_rectangle_sound. Qed.
+Theorem C16_model_sound_edges_circle : forall s pts, DW (dcel_of_obs s) ->
+  (forall e, e < nH s -> pnt_eqb (eorg s pts e) (edst s pts e) = false) ->
+  forall fuel c r2 loc l, get_edges_in_circle pts (dcel_of_obs s) fuel c r2 loc = Some l ->
+  forall k, In k l -> k < num_undirected_edges (dcel_of_obs s) /\ EdgeMeetsCircle c r2 (eorg s pts (2 * k)) (edst s pts (2 * k)).
+Proof. exact model_edges_in_circle_sound. Qed.
+Theorem C16_model_sound_vertices_circle : forall s pts, DW (dcel_of_obs s) ->
+  forall fuel c r2 loc l, get_vertices_in_circle pts (dcel_of_obs s) fuel c r2 loc = Some l ->
+  forall v, In v l -> v < nV s /\ InCircle c r2 (pos pts v).
+Proof. exact model_vertices_in_circle_sound. Qed.
+(* every metric: what is yielded passed the metric's test; more fuel never changes an answer *)
+Theorem C16_model_inside : forall d m fuel loc l, edges_in_shape d m fuel loc = Some l -> forall k, In k l -> m_edge m k = true.
+Proof. exact edges_in_shape_sound. Qed.
+Theorem C16_model_fuel_mono : forall d m fuel loc l, edges_in_shape d m fuel loc = Some l ->
+  forall fuel', fuel <= fuel' -> edges_in_shape d m fuel' loc = Some l.
+Proof. exact edges_in_shape_mono. Qed.
+(* degenerate states: termination within ff_fuel, and the whole specification *)
+Theorem C16_model_line_terminates : forall d m loc,
+  num_faces d = 1 -> m_start m = true -> num_undirected_edges d <= num_directed_edges d ->
+  edges_in_shape d m (ff_fuel d) loc = Some (inside_edges d m).
+Proof. exact edges_in_shape_line. Qed.
+Theorem C16_model_line_rect : forall s pts, DW (dcel_of_obs s) ->
+  (forall e, e < nH s -> pnt_eqb (eorg s pts e) (edst s pts e) = false) ->
+  forall lo hi loc, num_faces (dcel_of_obs s) = 1 -> o_ne s = num_undirected_edges (dcel_of_obs s) ->
+  exists l, get_edges_in_rectangle pts (dcel_of_obs s) (ff_fuel (dcel_of_obs s)) lo hi loc = Some l /\ EdgesInRectOk s pts lo hi l.
+Proof. exact model_edges_in_rectangle_line_spec. Qed.
+Theorem C16_model_line_circle : forall s pts, DW (dcel_of_obs s) ->
+  (forall e, e < nH s -> pnt_eqb (eorg s pts e) (edst s pts e) = false) ->
+  forall c r2 loc, num_faces (dcel_of_obs s) = 1 -> o_ne s = num_undirected_edges (dcel_of_obs s) -> (0 <= fst r2)%Z ->
+  exists l, get_edges_in_circle pts (dcel_of_obs s) (ff_fuel (dcel_of_obs s)) c r2 loc = Some l /\ EdgesInCircleOk s pts c r2 l.
+Proof. exact model_edges_in_circle_line_spec. Qed.
+Theorem C16_model_line_vertices_rect : forall s pts, DW (dcel_of_obs s) -> (2 <= nV s -> nH s <> 0) ->
+  forall lo hi loc, num_faces (dcel_of_obs s) = 1 ->
+  exists l, get_vertices_in_rectangle pts (dcel_of_obs s) (ff_fuel (dcel_of_obs s)) lo hi loc = Some l /\ VerticesInRectOk s pts lo hi l.
+Proof. exact model_vertices_in_rectangle_line_spec. Qed.
+Theorem C16_model_line_vertices_circle : forall s pts, DW (dcel_of_obs s) ->
+  (forall e, e < nH s -> pnt_eqb (eorg s pts e) (edst s pts e) = false) -> (2 <= nV s -> nH s <> 0) ->
+  forall c r2 loc, num_faces (dcel_of_obs s) = 1 -> (0 <= fst r2)%Z ->
+  exists l, get_vertices_in_circle pts (dcel_of_obs s) (ff_fuel (dcel_of_obs s)) c r2 loc = Some l /\ VerticesInCircleOk s pts c r2 l.
+Proof. exact model_vertices_in_circle_line_spec. Qed.
+(* two-dimensional states, terminating runs: completeness relative to reachability through inside edges *)
+Theorem C16_model_complete_partial : forall d m, DW d -> forall fuel loc f a l,
+  (num_faces d =? 1) = false -> m_start m = true ->
+  start_face d m loc = Some (Some f) -> f_adjacent d f = Some a -> a < length (d_hedges d) -> Dcel.WfCore.inner d a ->
+  edges_in_shape d m fuel loc = Some l ->
+  forall x, reach d m a x -> ine m x = true -> In (as_undirected x) l.
+Proof. exact edges_in_shape_complete_partial. Qed.
+Theorem C16_model_complete_partial_vertices : forall d m, DW d -> forall fuel loc f a l,
+  (num_faces d =? 1) = false -> m_start m = true ->
+  start_face d m loc = Some (Some f) -> f_adjacent d f = Some a -> a < length (d_hedges d) -> Dcel.WfCore.inner d a ->
+  vertices_in_shape d m fuel loc = Some l ->
+  forall x, reach d m a x -> m_vert m (e_origin d x) = true -> In (e_origin d x) l.
+Proof. exact vertices_in_shape_complete_partial. Qed.
+Theorem C16_model_complete_connected : forall d m, DW d -> forall fuel loc f a l,
+  (num_faces d =? 1) = false -> m_start m = true ->
+  start_face d m loc = Some (Some f) -> f_adjacent d f = Some a -> a < length (d_hedges d) -> Dcel.WfCore.inner d a ->
+  edges_in_shape d m fuel loc = Some l ->
+  (forall k, k < num_undirected_edges d -> m_edge m k = true -> reach d m a (normalized k) \/ reach d m a (e_rev (normalized k))) ->
+  forall k, k < num_undirected_edges d -> m_edge m k = true -> In k l.
+Proof. exact edges_in_shape_complete_connected. Qed.
+
+Print Assumptions C16_model_sound.
+Print Assumptions C16_model_line_rect.
+Print Assumptions C16_model_line_vertices_circle.
+Print Assumptions C16_model_complete_connected.
+Print Assumptions C16_metric_rect_edge.
 Print Assumptions C16_vertices_in_rectangle.
 Print Assumptions C16_edges_in_rectangle.
 Print Assumptions C16_edges_in_circle.
